@@ -198,7 +198,7 @@ Definition canon_name (n : bytes) : bytes :=
 Definition canon_headers (hs : list (bytes * bytes)) : list (bytes * bytes) :=
   flat_map (fun h => let n := canon_name (fst h) in
                      if (beq n (s2b "via") || beq n (s2b "route") || beq n (s2b "record-route"))%bool
-                     then map (fun e => (n, trim_space e)) (split_byte ","%char (snd h))
+                     then map (fun e => (n, trim_space_go e)) (split_byte ","%char (snd h))
                      else [(n, snd h)]) hs.
 Definition canon_eqb (a b : jmsg) : bool :=
   beq (jm_start a) (jm_start b) && beq (jm_body a) (jm_body b) && hs_eqb (canon_headers (jm_headers a)) (canon_headers (jm_headers b)).
